@@ -49,6 +49,14 @@ BIP_THOROUGH = [(l, r) for l in range(0, 4) for r in range(0, 4)] + [(2, 4), (4,
 
 def mk_graph(g):
     from cnfgen.graphs import Graph
+    if g.get('nx'):
+        # the same graph as a networkx object: nodes inserted in reverse order, edges in reverse order and orientation
+        import networkx
+        N = networkx.Graph()
+        N.add_nodes_from(range(g['n'], 0, -1))
+        N.add_edges_from((v, u) for u, v in reversed(g['edges']))
+        N.name = 'a networkx graph'
+        return N
     G = Graph(g['n'])
     for u, v in g['edges']:
         G.add_edge(u, v)
@@ -57,6 +65,20 @@ def mk_graph(g):
 
 def mk_bip(g):
     from cnfgen.graphs import BipartiteGraph
+    if g.get('nx'):
+        # networkx object: the two sides interleaved, 'bipartite' attribute as int (nx=1) or string (nx=2),
+        # edges listed from the right side
+        import networkx
+        N = networkx.Graph()
+        L = [('l', u) for u in range(1, g['l'] + 1)]
+        R = [('r', v) for v in range(1, g['r'] + 1)]
+        order = [x for pr in zip(R, L) for x in pr] + R[len(L):] + L[len(R):]
+        for nd in order:
+            side = 0 if nd[0] == 'l' else 1
+            N.add_node(nd, bipartite=side if g['nx'] == 1 else str(side))
+        N.add_edges_from((('r', v), ('l', u)) for u, v in reversed(g['edges']))
+        N.name = 'a networkx bipartite graph'
+        return N
     B = BipartiteGraph(g['l'], g['r'])
     for u, v in g['edges']:
         B.add_edge(u, v)
@@ -65,6 +87,13 @@ def mk_bip(g):
 
 def mk_digraph(g):
     from cnfgen.graphs import DirectedGraph
+    if g.get('nx'):
+        import networkx
+        N = networkx.DiGraph()
+        N.add_nodes_from(range(g['n'], 0, -1))
+        N.add_edges_from(reversed([tuple(e) for e in g['edges']]))
+        N.name = 'a networkx digraph'
+        return N
     D = DirectedGraph(g['n'])
     for u, v in g['edges']:
         D.add_edge(u, v)
@@ -155,3 +184,13 @@ def max_bip_matching(l, r, edges):
                 return True
         return False
     return sum(1 for u in range(1, l + 1) if aug(u, set()))
+
+
+def with_networkx_inputs(name_points, every=5):
+    """extra points: the graph argument given as a networkx object (documented as accepted by every family)"""
+    out = []
+    for i, (name, p) in enumerate(name_points):
+        if 'edges' in p and i % every == 2:
+            q = dict(p, nx=1 + (i // every) % 2)
+            out.append((name, q))
+    return out
